@@ -116,7 +116,11 @@ func solveAll(obls []*Obligation, dir string, timeout time.Duration, all bool) [
 			defer wg.Done()
 			sem <- struct{}{}
 			defer func() { <-sem }()
-			results[i] = solve(o, dir, timeout, all, nil)
+			to := timeout
+			if o.ExpectSat && to > 3*time.Second {
+				to = 3 * time.Second // cover checks: only an unsat answer matters
+			}
+			results[i] = solve(o, dir, to, all && !o.ExpectSat, nil)
 		}(i, o)
 	}
 	wg.Wait()
